@@ -275,15 +275,26 @@ def main():
         par = rng.choice([1, -1])
         ra = rng.choice([0.0, 359.9, 0.2, 180.0, rng.uniform(0, 360)])
         dec = rng.choice([0.0, 60.0, -75.0, 85.0, rng.uniform(-80, 80)])
+        crpix = [(nx + 1) / 2.0, (ny + 1) / 2.0]
+        if ii % 3 == 2:
+            # an image that CONTAINS a celestial pole, anywhere in it — in particular, for elongated images, further along the
+            # long axis than the short axis is long: the reference pixel is the pole itself
+            nx, ny = rng.choice([(12, 4), (4, 12), (40, 7), (9, 60), (33, 33), (5, 3)])
+            scale = rng.choice([5.0, 1.0, 0.3])
+            dec = rng.choice([90.0, -90.0])
+            lo_ax = min(nx, ny)
+            far = rng.uniform(lo_ax + 0.6, max(nx, ny) - 0.4) if max(nx, ny) > lo_ax + 1 else rng.uniform(1.0, lo_ax)
+            crpix = [far, rng.uniform(1.0, ny)] if nx >= ny else [rng.uniform(1.0, nx), far]
+            h.count("image", "contains-pole")
         w = WCS(naxis=2)
         w.wcs.ctype = ["RA---TAN", "DEC--TAN"]
         w.wcs.crval = [ra, dec]
-        w.wcs.crpix = [(nx + 1) / 2.0, (ny + 1) / 2.0]
+        w.wcs.crpix = crpix
         cr, sr = math.cos(math.radians(rot)), math.sin(math.radians(rot))
         w.wcs.cd = np.array([[-scale * cr * par, scale * sr], [scale * sr * par, scale * cr]])
         data = rng.random() + np.arange(ny * nx, dtype=np.float32).reshape((ny, nx))
-        inp = {"nx": nx, "ny": ny, "scale": scale, "rot": rot, "parity": par, "ra": ra, "dec": dec}
-        desc = f"{nx}x{ny} px TAN image at (ra {ra:.3f}, dec {dec:.3f}), {scale}°/px, rotation {rot:.1f}°, parity {par}"
+        inp = {"nx": nx, "ny": ny, "scale": scale, "rot": rot, "parity": par, "ra": ra, "dec": dec, "crpix": [float(v) for v in crpix]}
+        desc = f"{nx}x{ny} px TAN image at (ra {ra:.3f}, dec {dec:.3f}; reference pixel {crpix[0]:.2f},{crpix[1]:.2f}), {scale}°/px, rotation {rot:.1f}°, parity {par}"
         ws = samplers.WcsSampler(data, w)
         with warnings.catch_warnings():
             warnings.simplefilter("ignore")
